@@ -40,7 +40,37 @@ type Case struct {
 	Steps  []Step `json:"steps"`
 	Seed   uint64 `json:"seed"`
 	Engine string `json:"engine"` // interpreter | compiler
-	Class  string `json:"class"`  // prng | exhaustive | heavy | reject
+	Class  string `json:"class"`  // prng | exhaustive | heavy | reject | multi
+	// Multi: several instances with their own memories ("who executes the grow"), see multi.go
+	Multi *MultiCase `json:"multi,omitempty"`
+}
+
+func (cs Case) cfgKey() string {
+	if cs.Multi != nil {
+		return cs.Multi.key()
+	}
+	return cs.Cfg.String()
+}
+
+func (cs Case) nSteps() int {
+	if cs.Multi != nil {
+		return len(cs.Multi.Steps)
+	}
+	return len(cs.Steps)
+}
+
+// truncated returns the case cut after step k (the later steps are irrelevant for a finding at k).
+func (cs Case) truncated(k int) Case {
+	if cs.Multi != nil {
+		mc := *cs.Multi
+		if k+1 < len(mc.Steps) {
+			mc.Steps = mc.Steps[:k+1]
+		}
+		cs.Multi = &mc
+	} else if k+1 < len(cs.Steps) {
+		cs.Steps = cs.Steps[:k+1]
+	}
+	return cs
 }
 
 type Finding struct {
@@ -1249,6 +1279,9 @@ func child(mode string, in json.RawMessage) any {
 	var cs Case
 	if err := json.Unmarshal(in, &cs); err != nil {
 		return &Result{Findings: []Finding{{Sig: "harness:bad-case", Detail: err.Error()}}}
+	}
+	if cs.Multi != nil {
+		return runMulti(cs, false)
 	}
 	return runCase(cs, false)
 }
